@@ -227,10 +227,31 @@ def pick_opts(s, rng, op=None):
         r = rng.choice(asc_roots)
         sem["path"].append(("under", r))
         s.op_opts += ["--path", r.decode() + "/**"]
-    if rng.chance(1, 12) and len(asc_roots) >= 2 and "--isolate" not in s.group_opts:
-        sem["iso"] = list(asc_roots)
-        for r in asc_roots:
-            s.op_opts += ["--isolate", r.decode()]
+    if rng.chance(1, 5) and asc_roots and "--isolate" not in s.group_opts:
+        # --isolate PATH on the dedupe command line: "everything under PATH is one replica".  The PATHs may cover all, some or
+        # none of the files of a group (files under no PATH are still grouped by device+inode).
+        sub = sorted({os.path.dirname(os.path.join(d, f)) for r in asc_roots for d, _, fs_ in os.walk(r) for f in fs_
+                      if os.path.dirname(os.path.join(d, f)).isascii()})
+        kind = rng.choice(["all_roots", "one_root", "subdir", "outside", "outside+subdir", "two_subdirs"])
+        iso = []
+        if kind == "all_roots":
+            iso = list(asc_roots)
+        elif kind == "one_root":
+            iso = [rng.choice(asc_roots)]
+        elif kind == "subdir" and sub:
+            iso = [rng.choice(sub)]
+        elif kind == "outside":
+            iso = [os.path.join(s.base, b"vault")]
+        elif kind == "outside+subdir" and sub:
+            iso = [os.path.join(s.base, b"vault"), rng.choice(sub)]
+        elif kind == "two_subdirs" and len(sub) >= 2:
+            iso = rng.shuffle(sub)[:2]
+        if iso:
+            os.makedirs(os.path.join(s.base, b"vault"), exist_ok=True)
+            sem["iso"] = iso
+            sem["iso_kind"] = kind
+            for r in iso:
+                s.op_opts += ["--isolate", r.decode()]
     if rng.chance(1, 12) and "--symbolic-links" not in s.group_opts:
         sem["mlinks"] = True
         s.op_opts += ["--match-links"]
@@ -368,13 +389,24 @@ def c02_oracle(s, inv0, inv1, rc, err):
     removed = {p for p in inv0 if p not in inv1}
     ctxt = {"removed_or_changed": sorted(x.decode("utf-8", "replace") for x in touched)[:12]}
 
+    def different_replicas(p, q):
+        """under the DOCUMENTED sub-grouping (isolated roots first, then device+inode) p and q are different replicas - only then
+        is "link kept, target dropped" the known finding K2; a link and its target under no root (or the same root) are one replica"""
+        for g in groups:
+            if p in g["files"]:
+                subs = subgroups_of([m for m in g["files"] if m in inv0], ids, eff)
+                ip = [i for i, sg in enumerate(subs) if p in sg]
+                iq = [i for i, sg in enumerate(subs) if q in sg]
+                return bool(ip) and bool(iq) and ip[0] != iq[0]
+        return False
+
     def classify(kind_default, detail):
         """K2: a report member that is a symlink was left in place while the file it resolves to was dropped (only
         possible when the link and its target are different replicas: --isolate with -S).
         K7: `link` used a symlink as the link source (first retained path is a symlink)."""
         sig = {"kind": kind_default}
         kept_links = [p for p in links_in_report if p not in touched]
-        k2 = [p for p in kept_links if resolve(inv0, p) in touched]
+        k2 = [p for p in kept_links if resolve(inv0, p) in touched and different_replicas(p, resolve(inv0, p))]
         if k2 and eff["iso"] and "--symbolic-links" in s.group_opts:
             sig = {"kind": "isolated_symlink_target_dropped"}
             detail = dict(detail, kept_symlink=k2[0].decode("utf-8", "replace"),
@@ -458,7 +490,8 @@ def c02_oracle(s, inv0, inv1, rc, err):
             if not ok:
                 sig = {"kind": "moved_bytes_not_readable"}
                 tq = resolve(inv0, p)
-                if e0[0] == "l" and eff["iso"] and "--symbolic-links" in s.group_opts and tq is not None and tq not in removed:
+                if e0[0] == "l" and eff["iso"] and "--symbolic-links" in s.group_opts and tq is not None and tq not in removed \
+                        and different_replicas(p, tq):
                     # K2's mirror image: isolation made the SYMLINK a replica of its own (its target, in another root, is kept);
                     # the relative link is moved alone and dangles under DIR
                     sig = {"kind": "isolated_symlink_moved_without_its_target"}
